@@ -11,10 +11,10 @@ namespace C02
 open RimeModel.Session
 
 /-- a fresh session: nothing typed, no composition; options are whatever the schema's components set -/
-def Fresh (c : Ctx) : Prop := c.input = [] ∧ c.caret = 0 ∧ c.comp.segs = []
+def Fresh (c : Ctx) : Prop := c.input = [] ∧ c.caret = 0 ∧ c.comp.segs = [] ∧ c.comp.input = []
 
 theorem fresh_inv {c : Ctx} (h : Fresh c) : Inv c :=
-  ⟨by rw [h.1, h.2.1]; exact Nat.le_refl _, by rw [h.2.2]; exact SegsOK.nil⟩
+  ⟨⟨by rw [h.1, h.2.1]; exact Nat.le_refl _, by rw [h.2.2.1]; exact SegsOK.nil⟩, by rw [h.2.2.2, h.1]; exact Nat.le_refl _⟩
 
 /-- **C02, generic form.**  For every schema environment whose recomposition function never leaves a
 dangling selected index (`ComposeSpec`), every finite sequence of API calls (keys with arbitrary
